@@ -278,6 +278,11 @@ class FakeJob:
         self.world.events_written.append((self.evpath, text, f"{self.name}:job", self.world.evseq))
 
     def poll(self):
+        if self.returncode is not None and not getattr(self, "_reaped", False):
+            # the runner learns that its job ended: progress of that process even when it writes nothing (a non-manager
+            # node of a multi-node batch records no result), so its poll loop is not taken for idle
+            self._reaped = True
+            self.world.effects += 1
         return self.returncode
 
     def wait(self, *a, **k):
@@ -978,6 +983,13 @@ class World:
     def _scancel(self, argv, vt):
         jid = argv[1]
         self.note("scancel", id=jid, by=vt.proc.name)
+        self.scancel_calls = getattr(self, "scancel_calls", 0) + 1
+        for f in self.faults:
+            if f.get("kind") == "scancel_fail" and f["nth"] == self.scancel_calls:
+                # the controller does not answer: the request fails and the batch goes on as before
+                self.note("scancel_fail", id=jid, by=vt.proc.name)
+                self.fault_hits.append(("scancel_fail", self.scancel_calls))
+                return SyncResult(1, "", f"scancel: error: Kill job error on job id {jid}: Socket timed out on send/recv operation\n")
         r = self.slurm.get(jid)
         if r is None or (not r["visible"] and r["state"] not in ("PENDING", "RUNNING")):
             # unknown, or finished and already purged from the controller's memory
